@@ -172,6 +172,16 @@ func (c *Ctx) structuralNondetFree(rootRes []string, exempt map[string]bool) (ch
 							findings = append(findings, structFinding{key, "range over a map (iteration order is random) at " + c.fset.Position(x.Pos()).String() + ": " + why})
 						}
 					}
+				case *ssa.MapUpdate:
+					// process-local state: a map that was not made in this function (a field of a keeper, a global) survives
+					// the transaction, is not rolled back with the store and is not part of the replicated state
+					if keeperOrGlobalState(fn, x.Map) {
+						findings = append(findings, structFinding{key, "update of a map that outlives the call (state outside the store) at " + c.fset.Position(x.Pos()).String()})
+					}
+				case *ssa.Store:
+					if g, ok := x.Addr.(*ssa.Global); ok && !strings.HasPrefix(g.Name(), "init$") {
+						findings = append(findings, structFinding{key, "assignment to the package variable " + g.Name() + " (state outside the store) at " + c.fset.Position(x.Pos()).String()})
+					}
 				case *ssa.Select:
 					findings = append(findings, structFinding{key, "select statement at " + c.fset.Position(x.Pos()).String()})
 				case *ssa.Go:
@@ -206,6 +216,11 @@ func (c *Ctx) structuralNondetFree(rootRes []string, exempt map[string]bool) (ch
 					}
 				}
 			}
+		}
+	}
+	for _, fn := range fns {
+		for _, f := range c.yamlOrderFindings(fn) {
+			findings = append(findings, structFinding{c.fnKey(fn), f})
 		}
 	}
 	if sortedRanges > 0 {
@@ -368,8 +383,14 @@ func (c *Ctx) mapRangeSortedByKey(pos token.Pos) (bool, string) {
 	if keyField == "" {
 		return false, "the appended record does not store the map key in a field"
 	}
+	return c.sortedBeforeUse(fd, rs, xid.Name, keyField)
+}
+
+// sortedBeforeUse: after the statement `loop` (inside fd), on every path, the first use of the slice xName (or of a plain
+// alias of it; len(x) in a condition does not count) is a sort.SliceStable / sort.Slice call ordering it by keyField.
+func (c *Ctx) sortedBeforeUse(fd *ast.FuncDecl, loop ast.Stmt, xName, keyField string) (bool, string) {
 	// statements after the loop in source order
-	names := map[string]bool{xid.Name: true}
+	names := map[string]bool{xName: true}
 	exprStr := func(e ast.Expr) string { return types.ExprString(e) }
 	mentions := func(n ast.Node) bool {
 		found := false
@@ -419,14 +440,14 @@ func (c *Ctx) mapRangeSortedByKey(pos token.Pos) (bool, string) {
 		return 2
 	}
 	one = func(st ast.Stmt) int {
-		if st.End() <= rs.End() {
+		if st.End() <= loop.End() {
 			return 0 // before the loop, or the loop itself
 		}
 		switch x := st.(type) {
 		case *ast.BlockStmt:
 			return scan(x.List)
 		case *ast.IfStmt:
-			enclosing := st.Pos() < rs.Pos()
+			enclosing := st.Pos() < loop.Pos()
 			if !enclosing {
 				condOK := true
 				ast.Inspect(x.Cond, func(m ast.Node) bool {
@@ -451,7 +472,7 @@ func (c *Ctx) mapRangeSortedByKey(pos token.Pos) (bool, string) {
 			}
 			if enclosing {
 				// only the branch that contains the loop continues
-				if x.Body.Pos() <= rs.Pos() && rs.End() <= x.Body.End() {
+				if x.Body.Pos() <= loop.Pos() && loop.End() <= x.Body.End() {
 					return a
 				}
 				return b
@@ -540,4 +561,210 @@ func verifyOptsSetTime(com *ssa.CallCommon) bool {
 		}
 	}
 	return false
+}
+
+
+// localMap: the map operand was made in the same function (possibly through a phi / local variable).
+func localMap(v ssa.Value) bool {
+	seen := map[ssa.Value]bool{}
+	var rec func(v ssa.Value) bool
+	rec = func(v ssa.Value) bool {
+		if seen[v] {
+			return true
+		}
+		seen[v] = true
+		switch x := v.(type) {
+		case *ssa.MakeMap:
+			return true
+		case *ssa.Phi:
+			for _, e := range x.Edges {
+				if !rec(e) {
+					return false
+				}
+			}
+			return true
+		case *ssa.UnOp:
+			// load of a local variable: every value stored into it must be local
+			al, ok := x.X.(*ssa.Alloc)
+			if !ok || al.Referrers() == nil {
+				return false
+			}
+			any := false
+			for _, r := range *al.Referrers() {
+				if st, ok := r.(*ssa.Store); ok && st.Addr == al {
+					any = true
+					if !rec(st.Val) {
+						return false
+					}
+				}
+			}
+			return any
+		case *ssa.ChangeType:
+			return rec(x.X)
+		case *ssa.Call:
+			// a map returned by a function of this repository that builds it (labels(), …): accepted when the callee
+			// itself only returns maps it made
+			if sc := x.Common().StaticCallee(); sc != nil && len(sc.Blocks) > 0 {
+				for _, b := range sc.Blocks {
+					for _, ins := range b.Instrs {
+						if ret, ok := ins.(*ssa.Return); ok {
+							for _, rv := range ret.Results {
+								if _, isMap := rv.Type().Underlying().(*types.Map); isMap && !localMap(rv) {
+									return false
+								}
+							}
+						}
+					}
+				}
+				return true
+			}
+			return false
+		}
+		return false
+	}
+	return rec(v)
+}
+
+// yamlOrderFindings: a loop that walks the Content of a yaml.Node sees the document's key order; if it collects records
+// into a slice, the slice must be sorted by the field that holds the key before any other use (same rule as for maps).
+func (c *Ctx) yamlOrderFindings(fn *ssa.Function) []string {
+	fd, ok := fn.Syntax().(*ast.FuncDecl)
+	if !ok || fd.Body == nil {
+		return nil
+	}
+	var info *types.Info
+	for _, p := range c.pkgs {
+		if fn.Pkg != nil && p.Types == fn.Pkg.Pkg {
+			info = p.TypesInfo
+		}
+	}
+	if info == nil {
+		return nil
+	}
+	isNodeContent := func(e ast.Expr) bool {
+		se, ok := e.(*ast.SelectorExpr)
+		if !ok || se.Sel.Name != "Content" {
+			return false
+		}
+		t := info.TypeOf(se.X)
+		return t != nil && strings.HasSuffix(strings.TrimPrefix(t.String(), "*"), "yaml.v3.Node")
+	}
+	mentionsContent := func(n ast.Node) bool {
+		found := false
+		ast.Inspect(n, func(m ast.Node) bool {
+			if e, ok := m.(ast.Expr); ok && isNodeContent(e) {
+				found = true
+			}
+			return !found
+		})
+		return found
+	}
+	var out []string
+	ast.Inspect(fd.Body, func(n ast.Node) bool {
+		var body *ast.BlockStmt
+		var loop ast.Stmt
+		switch x := n.(type) {
+		case *ast.ForStmt:
+			if x.Cond != nil && mentionsContent(x.Cond) {
+				body, loop = x.Body, x
+			}
+		case *ast.RangeStmt:
+			if isNodeContent(x.X) {
+				body, loop = x.Body, x
+			}
+		}
+		if body == nil {
+			return true
+		}
+		// appends of composite literals one of whose fields is taken from the node content
+		ast.Inspect(body, func(m ast.Node) bool {
+			as, ok := m.(*ast.AssignStmt)
+			if !ok || len(as.Lhs) != 1 || len(as.Rhs) != 1 {
+				return true
+			}
+			xid, ok := as.Lhs[0].(*ast.Ident)
+			call, ok2 := as.Rhs[0].(*ast.CallExpr)
+			if !ok || !ok2 || len(call.Args) != 2 {
+				return true
+			}
+			if f, ok := call.Fun.(*ast.Ident); !ok || f.Name != "append" {
+				return true
+			}
+			lit, ok := call.Args[1].(*ast.CompositeLit)
+			if !ok {
+				return true
+			}
+			keyField := ""
+			for _, e := range lit.Elts {
+				if kv, ok := e.(*ast.KeyValueExpr); ok && mentionsContent(kv.Value) {
+					if id, ok := kv.Key.(*ast.Ident); ok && keyField == "" {
+						keyField = id.Name
+					}
+				}
+			}
+			if keyField == "" {
+				return true
+			}
+			if ok, why := c.sortedBeforeUse(fd, loop, xid.Name, keyField); !ok {
+				out = append(out, "records collected in YAML document order at "+c.fset.Position(loop.Pos()).String()+": "+why)
+			}
+			return true
+		})
+		return false
+	})
+	return out
+}
+
+
+// keeperOrGlobalState: the value is reached from a package variable or from the method's receiver (a field of a keeper /
+// server object, however deep): state that lives as long as the process.
+func keeperOrGlobalState(fn *ssa.Function, v ssa.Value) bool {
+	var recv *ssa.Parameter
+	if fn.Signature.Recv() != nil && len(fn.Params) > 0 {
+		recv = fn.Params[0]
+	}
+	seen := map[ssa.Value]bool{}
+	var rec func(v ssa.Value) bool
+	rec = func(v ssa.Value) bool {
+		if v == nil || seen[v] {
+			return false
+		}
+		seen[v] = true
+		switch x := v.(type) {
+		case *ssa.Global:
+			return true
+		case *ssa.Parameter:
+			return recv != nil && x == recv
+		case *ssa.FreeVar:
+			return false
+		case *ssa.UnOp:
+			return rec(x.X)
+		case *ssa.FieldAddr:
+			return rec(x.X)
+		case *ssa.Field:
+			return rec(x.X)
+		case *ssa.IndexAddr:
+			return rec(x.X)
+		case *ssa.ChangeType:
+			return rec(x.X)
+		case *ssa.Alloc:
+			if x.Referrers() == nil {
+				return false
+			}
+			for _, r := range *x.Referrers() {
+				if st, ok := r.(*ssa.Store); ok && st.Addr == x && rec(st.Val) {
+					return true
+				}
+			}
+			return false
+		case *ssa.Phi:
+			for _, e := range x.Edges {
+				if rec(e) {
+					return true
+				}
+			}
+		}
+		return false
+	}
+	return rec(v)
 }
